@@ -27,7 +27,9 @@ fn main() {
         eprintln!("unknown property {}", args[0]);
         std::process::exit(2)
     };
-    silence_panics();
+    if std::env::var("LC3V_PANIC_TRACE").is_err() {
+        silence_panics();
+    }
     let findings: Vec<Finding> = init_findings(&verif_dir).to_vec();
 
     if args[1] == "--replay" {
